@@ -113,3 +113,19 @@ Definition matches_comparator (c : comparator) (v : sv) : bool :=
 Definition matches_req (r : list comparator) (v : sv) : bool :=
   forallb (fun c => matches_impl c v) r
   && (is_nil (sv_pre v) || existsb (fun c => pre_is_compatible c v) r).
+
+(* ---------------------------------------------------------------- a witness of non-emptiness *)
+Definition c_near (c : comparator) : list sv :=
+  let m := match c_minor c with Some x => x | None => 0 end in
+  let p := match c_patch c with Some x => x | None => 0 end in
+  [ mk_sv (c_major c) m p (c_pre c);
+    mk_sv (c_major c) m p [];
+    mk_sv (c_major c) m (p + 1) [];
+    mk_sv (c_major c) (m + 1) 0 [];
+    mk_sv (c_major c + 1) 0 0 [];
+    mk_sv (c_major c) m p (c_pre c ++ [INum 0]);
+    mk_sv (c_major c) m p [INum 0] ].
+
+Definition req_candidates (r : list comparator) : list sv := mk_sv 0 0 0 [] :: flat_map c_near r.
+
+Definition req_witness (r : list comparator) : option sv := find (fun v => matches_req r v) (req_candidates r).
